@@ -173,7 +173,10 @@ Embed2(o, i, uva, uvk, dep) ==
       ePok == (IF hasIPos THEN <<>> ELSE (IF clearPos THEN ClearD(o.pok) ELSE o.pok)) \o m.pok
       groups == <<o.pos, o.pok, m.pos, m.pok, o.kwo, m.kwo>>
       dup == \E a, b \in 1..6 : a < b /\ SeqNames(groups[a]) \cap SeqNames(groups[b]) # {}
-      popped == (IF o.va # NoP /\ uva THEN {o.va.n} ELSE {}) \cup (IF o.vk # NoP /\ uvk THEN {o.vk.n} ELSE {})
+      (* an intermediate result of a fold may have a forwarded star spelled like another of its parameters: the entry is the latter's *)
+      kept == SeqNames(o.pos) \cup SeqNames(o.pok) \cup SeqNames(o.kwo)
+              \cup (IF o.va # NoP /\ ~uva THEN {o.va.n} ELSE {}) \cup (IF o.vk # NoP /\ ~uvk THEN {o.vk.n} ELSE {})
+      popped == ((IF o.va # NoP /\ uva THEN {o.va.n} ELSE {}) \cup (IF o.vk # NoP /\ uvk THEN {o.vk.n} ELSE {})) \ kept
       src == SOver(m.src, SPop(o.src, popped))     \* outer's forwarded stars are dropped from outer's own map first
       depth == MergeDepths(o.depth, [f \in DOMAIN m.depth |-> m.depth[f] + dep])
   IN IF dup THEN Incompat
